@@ -83,7 +83,7 @@ theorem mem_subsets (i n : Nat) (s : List Nat) :
 
 /-- a combination passes the loop body of `enumerate_with_filter` -/
 def comboOk (r : Run) (p : Pred) (c : List Nat × List Entry) : Bool :=
-  !c.2.isEmpty && evalDeferred p r.captured (c.2.map (·.ev))
+  !c.2.isEmpty && evalDeferred p (deferredAlias p c.2) r.captured (c.2.map (·.ev))
 
 theorem enumLoop_eq (r : Run) (k : KCap) (p : Pred) (mr : Nat) :
     ∀ (cs : List (List Nat × List Entry)) (acc : List Match), acc.length < mr →
@@ -100,7 +100,7 @@ theorem enumLoop_eq (r : Run) (k : KCap) (p : Pred) (mr : Nat) :
       rw [ih acc hacc]
       simp [List.filter_cons, comboOk, he]
     · simp only [he]
-      by_cases hp : evalDeferred p r.captured (c.2.map (·.ev)) = true
+      by_cases hp : evalDeferred p (deferredAlias p c.2) r.captured (c.2.map (·.ev)) = true
       · have hok : comboOk r p c = true := by simp [comboOk, he, hp]
         simp only [hp, if_true, List.filter_cons, hok, List.map_cons]
         by_cases hfull : (acc ++ [mkEnumMatch r k c]).length ≥ mr
@@ -579,5 +579,92 @@ theorem compile_wf (steps : List Step) : NfaWf (compile steps) := by
     have := hacc s0 hs0
     simp only [List.length_map, Nfa.setAccept, length_modifyAt]
     exact this
+
+/-! ### symbolic execution of `A -> all B -> C` -/
+
+/-- the pattern `A as a [where pa] -> all B as b [where pb] -> C as c [where pc]` -/
+def midSteps (pa pb pc : Option Pred) : List Step :=
+  [{ ty := 0, pred := pa, alias := some 0 }, { ty := 1, pred := pb, alias := some 1, kleene := true },
+   { ty := 2, pred := pc, alias := some 2 }]
+
+/-- its automaton: 0 start → 1 A → 2 B (Kleene, self-loop, ε→2, ε→3) ; 3 continue → 4 C = accept.
+`pe` is the filter evaluated eagerly on B events, `pp` the postponed one. -/
+def nfaMid (pa pe pp pc : Option Pred) : Nfa :=
+  { states := [
+      { ty := .start, trans := [1] },
+      { ty := .normal, evTy := some 0, pred := pa, alias := some 0, trans := [2] },
+      { ty := .kleene, evTy := some 1, pred := pe, postponed := pp, alias := some 1, eps := [2, 3], selfLoop := true },
+      { ty := .normal, trans := [4] },
+      { ty := .accept, evTy := some 2, pred := pc, alias := some 2 } ],
+    start := 0 }
+
+theorem compile_mid_selfref (pa pc : Option Pred) (p : Pred) (h : selfRef (some 1) p = true) :
+    compile (midSteps pa (some p) pc) = nfaMid pa none (some p) pc := by
+  simp [compile, midSteps, compileStep, Nfa.addState, Nfa.addTransition, Nfa.addEpsilon, Nfa.setAccept, modifyAt, nfaMid, h, List.modify]
+
+theorem compile_mid_consistent (pa pc : Option Pred) (p : Pred) (h : selfRef (some 1) p = false) :
+    compile (midSteps pa (some p) pc) = nfaMid pa (some p) none pc := by
+  simp [compile, midSteps, compileStep, Nfa.addState, Nfa.addTransition, Nfa.addEpsilon, Nfa.setAccept, modifyAt, nfaMid, h, List.modify]
+
+theorem compile_mid_nofilter (pa pc : Option Pred) :
+    compile (midSteps pa none pc) = nfaMid pa none none pc := by
+  simp [compile, midSteps, compileStep, Nfa.addState, Nfa.addTransition, Nfa.addEpsilon, Nfa.setAccept, modifyAt, nfaMid, List.modify]
+def capAB (eA last : Ev) : Cap := [(1, last), (0, eA)]
+
+/-- the capture after the events `kept` were accumulated -/
+def kcOf (pp : Option Pred) (kept : List Ev) : KCap :=
+  { handle := if pp.isSome then full 0 kept.length else .base, events := kept,
+    aliases := List.replicate kept.length (some 1), nextVar := kept.length, deferred := pp, needsZdd := pp.isSome }
+
+def runAt1 (eA : Ev) (seq : Nat) : Run := { cur := 1, stack := [⟨eA, some 0⟩], captured := [(0, eA)], seq := seq }
+
+def runAt2 (pp : Option Pred) (eA : Ev) (kept : List Ev) (last : Ev) (seq : Nat) : Run :=
+  { cur := 2, stack := ⟨eA, some 0⟩ :: kept.map (⟨·, some 1⟩), captured := capAB eA last, seq := seq,
+    kc := some (kcOf pp kept) }
+
+theorem kcOf_first (pp : Option Pred) (b : Ev) : (KCap.init pp).add b (some 1) = kcOf pp [b] := by
+  cases pp <;> simp [KCap.init, KCap.add, KCap.extend, KCap.extendSimple, kcOf, pwo, mk, full]
+
+theorem kcOf_add (pp : Option Pred) (kept : List Ev) (b : Ev) : (kcOf pp kept).add b (some 1) = kcOf pp (kept ++ [b]) := by
+  have := pwo_full 0 kept.length
+  simp only [Nat.zero_add] at this
+  cases pp <;> simp [KCap.add, KCap.extend, KCap.extendSimple, kcOf, this, List.replicate_succ']
+
+theorem adv_first (pa pe pp pc : Option Pred) (lim : Limits) (eA b : Ev) (seq : Nat) (hb : b.ty = 1) (hk : 1 ≤ lim.maxEvents) :
+    advance (nfaMid pa pe pp pc) lim (runAt1 eA seq) b =
+      if predOk pe b [(0, eA)] then .cont (runAt2 pp eA [b] b seq) else .noMatch (runAt1 eA seq) := by
+  have hk' : ¬ ((KCap.init pp).nextVar ≥ lim.maxEvents) := by simp [KCap.init]; omega
+  have hfirst := kcOf_first pp b
+  have hcapset : Cap.set [(0, eA)] 1 b = capAB eA b := by simp [Cap.set, capAB]
+  by_cases hok : predOk pe b [(0, eA)] = true
+  · simp [advance, nfaMid, runAt1, runAt2, tryTransitions, matchesState, tyOk, hb, hok, enterKleene, Run.push,
+      Cap.setOpt, hcapset, hk', hfirst]
+  · simp [advance, nfaMid, runAt1, tryTransitions, tryEps, matchesState, tyOk, hb, hok]
+
+theorem adv_loop (pa pe pp pc : Option Pred) (lim : Limits) (eA last b : Ev) (kept : List Ev) (seq : Nat) (hb : b.ty = 1) :
+    advance (nfaMid pa pe pp pc) lim (runAt2 pp eA kept last seq) b =
+      if predOk pe b (capAB eA last) then
+        (if kept.length ≥ lim.maxEvents then .cont (runAt2 pp eA kept last seq)
+         else .cont (runAt2 pp eA (kept ++ [b]) b seq))
+      else .noMatch (runAt2 pp eA kept last seq) := by
+  have hadd := kcOf_add pp kept b
+  have hnv : (kcOf pp kept).nextVar = kept.length := rfl
+  have hcapset : Cap.set (capAB eA last) 1 b = capAB eA b := by simp [Cap.set, capAB]
+  by_cases hok : predOk pe b (capAB eA last) = true
+  · by_cases hcap : kept.length ≥ lim.maxEvents
+    · simp [advance, nfaMid, runAt2, matchesState, tyOk, hb, hok, hcap, hnv]
+    · simp [advance, nfaMid, runAt2, matchesState, tyOk, hb, hok, hcap, hnv, Run.push, Cap.setOpt, hcapset, hadd]
+  · simp [advance, nfaMid, runAt2, matchesState, tyOk, hb, hok, tryTransitions, tryEps, tryEpsTargets]
+
+theorem adv_complete (pa pe pp pc : Option Pred) (lim : Limits) (eA last c : Ev) (kept : List Ev) (seq : Nat) (hc : c.ty = 2) :
+    advance (nfaMid pa pe pp pc) lim (runAt2 pp eA kept last seq) c =
+      if predOk pc c (capAB eA last) then
+        completeRun { cur := 4, stack := (⟨eA, some 0⟩ :: kept.map (⟨·, some 1⟩)) ++ [⟨c, some 2⟩],
+                      captured := (2, c) :: capAB eA last, seq := seq, kc := some (kcOf pp kept) } lim
+      else .noMatch (runAt2 pp eA kept last seq) := by
+  have hcapset : Cap.set (capAB eA last) 2 c = (2, c) :: capAB eA last := by simp [Cap.set, capAB]
+  by_cases hok : predOk pc c (capAB eA last) = true
+  · simp [advance, nfaMid, runAt2, matchesState, tyOk, hc, hok, tryTransitions, tryEps, tryEpsTargets, Run.push, Cap.setOpt, hcapset]
+  · simp [advance, nfaMid, runAt2, matchesState, tyOk, hc, hok, tryTransitions, tryEps, tryEpsTargets]
 
 end Varpulis.SaseK
